@@ -29,7 +29,21 @@ where
                 return None;
             }
         }
-        let mut out = f(&key, &idx);
+        // a panic that escapes from the library through a call the case did not guard itself (e.g. sol_many on a
+        // time it cannot place) is a finding about that case, not a failure of the machinery
+        let mut out = match crate::util::guarded(|| f(&key, &idx)) {
+            Ok(o) => o,
+            Err(msg) => {
+                let mut c = CaseOut::default();
+                let mut m = serde_json::Map::new();
+                m.insert("key".into(), json!(key));
+                for (d, k) in dims.iter().zip(idx.iter()) {
+                    m.insert(d.name.to_string(), json!(d.labels[*k]));
+                }
+                c.violations.push(crate::report::Violation::new(&key, "panic", format!("a library call panicked: {}", msg), Value::Object(m)));
+                Some(c)
+            }
+        };
         // keep written-out samples only for a handful of evenly spaced points (memory)
         let keep_sample = total < 64 || i % (total / 16).max(1) == 0;
         if let Some(o) = out.as_mut() {
